@@ -95,7 +95,7 @@ func (g *sgen) insert1() Op {
 		return stmt("INSERT INTO t_item (code, qty, price, ts, bin) VALUES (?, ?, ?, ?, ?)", false, sv("k"+strconv.Itoa(g.uniq)), iv(r.Intn(9)),
 			sv(fmt.Sprintf("%d.%02d", r.Intn(100), r.Intn(100))), tv("2024-03-04 05:06:07.125"), bv("00ff10"))
 	}
-	return stmt(fmt.Sprintf("INSERT INTO t_user (id, name) VALUES (%d, NULL)", 100+g.uniq), false)
+	return stmt(fmt.Sprintf("INSERT INTO t_item (code, qty, price) VALUES ('j%d', %d, NULL)", g.uniq, r.Intn(9)), false)
 }
 
 // update / delete with numeric WHERE (literals or parameters), no primary-key change.
